@@ -20,7 +20,7 @@ HERE = Path(__file__).resolve().parent.parent
 THEOREMS = ["Yaw.C06.init_inv", "Yaw.C06.step_inv", "Yaw.C06.inv_reach", "Yaw.C06.progress", "Yaw.C06.measure_decreases",
             "Yaw.C06.exactly_once", "Yaw.C06.no_worker_no_task", "Yaw.C06.initB_inv", "Yaw.C06.stepB_inv",
             "Yaw.C06.invB_reach", "Yaw.C06.no_loss", "Yaw.C06.progressB", "Yaw.C06.measureB_decreases",
-            "Yaw.C06.single_sentinel_loses_data", "Yaw.C06.dispatch_correct", "Yaw.C06.writer_correct", "Yaw.C06.flags",
+            "Yaw.C06.single_sentinel_loses_data", "Yaw.C06.dispatch_correct", "Yaw.C06.writer_correct", "Yaw.C06.root_result_eq_sequential", "Yaw.C06.flags",
             "Yaw.C06.glue_pinned"]
 RULE = ("the library's MPI code paths (selected at import time) executed in simulated MPI worlds: world sizes 2..5 "
         "(..6 thorough), max_workers in {None, 1, 2, 3}, ranks on one or two nodes (at least two on the root's node), "
